@@ -195,12 +195,17 @@ def _(v):
         pair = [Substance.from_formula("Ce", charge=4), Substance.from_formula("Ce")] if first == "ion" else [Substance.from_formula("Ce"), Substance.from_formula("Ce", charge=4)][::-1]
         ion, neutral = pair
         v.prove("ion_and_parent_differ_by_the_electron_masses.%s_first" % first, close(neutral.mass, ram[57]) and close(neutral.mass - ion.mass, 4 * me) and neutral.charge == 0 and ion.charge == 4)
-    shared = {}
+    shared = {"tag": 1}            # non-empty: an empty dict is replaced by the constructor (`data or {}`) and would not be shared at all
     a = Substance.from_formula("NaCl", data=shared)
     b = Substance.from_formula("H2O", data=shared)
     ma, mb = a.mass, b.mass
-    v.prove("substances_sharing_a_data_dict_keep_their_own_masses", close(ma, ram[10] + ram[16]) and close(mb, 2 * ram[0] + ram[7]) and close(a.mass, ma))
-    v.prove("reading_the_mass_does_not_write_into_data", shared == {})
+    v.prove("substances_sharing_a_data_dict_keep_their_own_masses", a.data is shared and b.data is shared and close(ma, ram[10] + ram[16]) and close(mb, 2 * ram[0] + ram[7]) and close(a.mass, ma))
+    v.prove("reading_the_mass_does_not_write_into_data", shared == {"tag": 1})
+    # constructing an ion from a composition mapping the caller keeps using: the caller's mapping (and a parent built from it) is not given the charge
+    comp = {1: 1}
+    ion = Substance("H+", charge=1, composition=comp)
+    parent = Substance("H", composition=comp)
+    v.prove("charge_keyword_does_not_write_into_the_callers_composition", comp == {1: 1} and ion.composition == {1: 1, 0: 1} and parent.charge == 0 and close(parent.mass - ion.mass, me))
     c = Substance("X", composition={1: 2, 8: 1})
     m1 = c.mass
     c.composition[8] = 2
